@@ -219,6 +219,9 @@ func (h *harness) genHistory(r *lib.RNG) runnerHistory {
 		}
 		reg = string(b)
 		sp := startSpec{Reg: strings.Repeat("m", shift) + reg, CancelAt: pickTick(r), CrashAt: pickTick(r)}
+		if r.Chance(1, 5) {
+			sp.FailAt = 1 + r.Intn(12)
+		}
 		beh := h.genBeh(r, len(reg), wild)
 		sp.Beh = map[int]migBeh{}
 		for i, v := range beh {
@@ -255,6 +258,22 @@ func (h *harness) runnerAll() {
 							{Reg: reg, CancelAt: never, CrashAt: never},
 						}}
 						h.runnerHistoryCase(hist, "enum2")
+					}
+				}
+			}
+		}
+	}
+	// every tick as the failing runner write, with and without a cancellation before it
+	for _, reg := range []string{"mm", "em"} {
+		for fa := 1; fa <= 8; fa++ {
+			for _, ca := range []int{never, 0, 3, 5} {
+				for _, k0 := range []string{"complete", "coop", "coopErr", "inProgress"} {
+					for _, k1 := range []string{"complete", "coop"} {
+						hist := runnerHistory{Starts: []startSpec{
+							{Reg: reg, CancelAt: ca, CrashAt: never, FailAt: fa, Beh: map[int]migBeh{0: {Kind: k0, State: "01"}, 1: {Kind: k1}}},
+							{Reg: reg, CancelAt: never, CrashAt: never},
+						}}
+						h.runnerHistoryCase(hist, "enum-fail")
 					}
 				}
 			}
